@@ -77,7 +77,8 @@ PATTERNS = [
     ("(?i)stra\u00dfe", ["stra\u00dfe", "STRA\u00dfE"], ["strasse", ""]), ("stra\u00dfe", ["stra\u00dfe"], ["strasse"]),
     ("(?i:\ufb01)x{2}", ["\ufb01xx"], ["fixx", "x"]), ("(?i)\u0130\u0149\u01f0", ["\u0130\u0149\u01f0"], ["i"]),
     ("^[\u00df\u0130]{3}$", ["\u00df\u0130\u00df"], ["sss", ""]), ("(?i)[\u00df]{2}", ["\u00df\u00df"], ["ss"]),
-    ("(?s)a.b", ["a\nb", "axb"], ["ab"]), ("(?m)^ab$", ["ab", "x\nab\ny"], ["abc"]), ("(?x) a b # comment", ["ab"], ["a b"]),
+    ("(?s)a.b", ["a\nb", "axb"], ["ab"]), ("(?s)a(?-s:.)b", ["axb", "a-b"], ["a\nb"]), ("(?s:a.)(?-s:.)c", ["a\nxc"], ["a\n\nc"]),
+    ("(?s)(a.)(?-s:b.)c", ["a\nbxc"], ["axb\nc"]), ("(?m)^ab$", ["ab", "x\nab\ny"], ["abc"]), ("(?x) a b # comment", ["ab"], ["a b"]),
     ("(?a)\\w{3}\\d", ["abc1"], ["\u00e9\u00e9\u00e91"]),
 ]
 # witnesses for patterns that only C01's directed list uses (known finding F42: IGNORECASE with a negation) - never drawn by
@@ -723,6 +724,20 @@ VTWINS = [
     ("schema.str.regex(r'^[\\w-]+$')", "'\u00fcber-\u0663'"), ("schema.str.regex(r'\\bb')", "'\u00e9b'"),
     ("schema.list(schema.str.regex(r'^\\d$'))", "['1', '\u0663', 'x']"), ("schema.dict({'n': schema.str.regex(r'^\\w{2}$')})", "{'n': '\u00e9\u00e8'}"),
     ("schema.str.regex('(?i)^stra\u00dfe$')", "'STRASSE'"), ("schema.str.regex('(?i)^stra\u00dfe$')", "'STRA\u1e9eE'"), ("schema.str.regex('(?i)^k$')", "'\u212a'"),
+    # a fixed float with a precision whose scaled value leaves the float range: nothing but the value itself is accepted
+    ("schema.float(1e307).precision(2)", "1.1e307"), ("schema.float(1e307).precision(2)", "float('inf')"), ("schema.float(1e307).precision(2)", "1e307"),
+    ("schema.float(float('inf')).precision(1)", "1e308"), ("schema.float(-1e307).precision(3)", "-3.3e306"), ("schema.float(1.5e308).precision(15)", "1.6e308"),
+    ("schema.list(schema.float(1e306).precision(3))", "[1e306, 1.0000001e306, float('inf')]"),
+    # very long keys and values: messages and paths name them in full
+    ("schema.dict({'k' * 300: schema.int, 'k' * 150 + 'X' + 'k' * 149: schema.int})", "{'k' * 300: 'a', 'k' * 150 + 'X' + 'k' * 149: 'b'}"),
+    ("schema.dict({'k' * 300: schema.dict({'a': schema.int})})", "{'k' * 300: {}}"), ("schema.str('a' * 500)", "'a' * 499 + 'b'"),
+    ("schema.list(schema.str.len(3))", "['a' * 300, 'a' * 149 + 'b' + 'a' * 150]"), ("schema.dict({'a': schema.int})", "{'a': 1, 'z' * 400: 2, 'z' * 200 + 'y' + 'z' * 199: 3}"),
+    # aware datetimes: equality is equality of instants, whatever the offsets
+    ("schema.datetime(datetime.datetime(2020, 1, 1, 12, tzinfo=datetime.timezone.utc))", "datetime.datetime(2020, 1, 1, 13, tzinfo=datetime.timezone(datetime.timedelta(hours=1)))"),
+    ("schema.datetime(datetime.datetime(2020, 1, 1, 12, tzinfo=datetime.timezone.utc))", "datetime.datetime(2020, 1, 1, 12, tzinfo=datetime.timezone(datetime.timedelta(hours=1)))"),
+    ("schema.list(schema.datetime(datetime.datetime(2020, 1, 1, 0, 30, tzinfo=datetime.timezone(datetime.timedelta(hours=5, minutes=30)))))",
+     "[datetime.datetime(2019, 12, 31, 19, 0, tzinfo=datetime.timezone.utc), datetime.datetime(2020, 1, 1, 0, 30)]"),
+    ("schema.any(schema.datetime(datetime.datetime(2020, 1, 1, 12, tzinfo=datetime.timezone.utc)), schema.none)", "datetime.datetime(2020, 1, 1, 4, tzinfo=datetime.timezone(datetime.timedelta(hours=-8)))"),
     # many errors at once (every one is reported, rendered and counted)
     ("schema.list(schema.int)", "['x'] * 25"), ("schema.list(schema.int.min(5))", "list(range(-30, 5))"),
     ("schema.dict({%s})" % ", ".join(f"'k{i}': schema.int" for i in range(30)), "{}"),
